@@ -1,5 +1,77 @@
+/-
+Driver operations for C10: evaluate the language queries and derived automata of the FSA model.
+-/
 import GT.Base.JsonQ
-open Lean GT.J
+import GT.Model.FSA
+import GT.Driver.C09
+open Lean GT.J GT GT.Driver.C09
 namespace GT.Driver.C10
-def ops : List (String × Handler) := []
+
+def optVx (j : Json) (k : String) : R (Option Vx) :=
+  match j.getObjVal? k with
+  | .ok .null => pure none
+  | .ok v => do return some (← vxOf v)
+  | .error _ => pure none
+
+def startOf (s : A) (j : Json) : R Vx := do
+  match ← optVx j "v" with
+  | some v => pure v
+  | none => lift s.start0
+
+def pathsTo (lab : L → Json) (ps : List (List L × Vx)) : Json :=
+  ofList (ofPair (ofList lab) vxTo) ps
+
+def joinWord (w : List String) : Json := .str (String.join w)
+
+/-- one query against a fixed automaton -/
+def queryOf (s : A) (j : Json) : R Json := do
+  let q ← strf j "q"
+  match q with
+  | "follow" =>
+    let w ← listOf str (← field j "w")
+    let v ← startOf s j
+    match s.follow v w with
+    | some r => return vxTo r
+    | none => throw "FSAException"
+  | "accepts" =>
+    let w ← listOf str (← field j "w")
+    return .bool (s.accepts w (← optVx j "v"))
+  | "prefix" => return ofList Json.str (← lift (s.initialAccepted (← listOf str (← field j "w"))))
+  | "rejprefix" => return ofList Json.str (← lift (s.initialRejected (← listOf str (← field j "w"))))
+  | "enum_fixed" =>
+    let v ← startOf s j
+    return pathsTo Json.str (← lift (s.enumFixed v (← natf j "n")))
+  | "enum_words" =>
+    let v ← startOf s j
+    return pathsTo Json.str (← lift (s.enumUpTo v (← natf j "n")))
+  | "multiple" =>
+    let m ← lift (s.multiple (← natf j "k") (← natf j "fuel"))
+    return viewsTo joinWord m
+  | "multiple_enum" =>
+    let m ← lift (s.multiple (← natf j "k") (← natf j "fuel"))
+    let v ← lift m.start0
+    return pathsTo joinWord (← lift (m.enumUpTo v (← natf j "n")))
+  | "rename" => return viewsTo Json.str (← lift (s.rename (← dictOf str str (← field j "m"))))
+  | "recurrent" => return viewsTo Json.str (← lift s.recurrent)
+  | "rlp" =>
+    let (h, dist) ← lift (s.removeLongPaths (← optVx j "root") (← boolf j "ties"))
+    return Json.mkObj [("aut", viewsTo Json.str h), ("dist", ofDict vxTo (fun (n : Nat) => Json.num ⟨n, 0⟩) dist)]
+  | "views" => return viewsTo Json.str s
+  | _ => throw "unknown query"
+
+def answer (s : A) (j : Json) : Json :=
+  match queryOf s j with
+  | .ok v => Json.mkObj [("ok", v)]
+  | .error e => Json.mkObj [("err", .str e)]
+
+/-- `{"op":"c10.eval","init":{…},"ops":[…],"qs":[…]}`: build, apply the history, answer every
+query against the resulting automaton (queries are pure in the model) -/
+def evalOp (j : Json) : R Json := do
+  let s ← initOf (← field j "init")
+  let hist ← arr (fieldD j "ops" (.arr #[]))
+  let s ← runQuiet s hist.toList
+  let qs ← arr (← field j "qs")
+  return .arr (qs.map (answer s))
+
+def ops : List (String × Handler) := [("c10.eval", evalOp)]
 end GT.Driver.C10
